@@ -15,10 +15,11 @@ EXPLANATION = (
     "pass the caller's value unchanged to Salt::new_with_len_using / new_in_range_using and propagate the refusal with `?`. C17.5: in the "
     "salted add, the inserted envelope is add_salt(assertion) iff salted, else the assertion; the duplicate test and the validity test of "
     "C04.3/C04.4 apply to the very element inserted (so a salted add is not suppressed by an equal unsalted assertion). C17.6: a salted assertion is still found by its predicate - the C15.5 lookup rules (filter on subject(a)) re-evaluated here. C17.7: add_assertions_salted is the unconditional left fold of add_assertion_envelope_salted(acc, a, salted) over every listed assertion. Does not decide the "
-    "documented length range / >= 8 refusal (inside bc_components::Salt) nor distinctness across invocations (randomness).")
+    "documented length range / >= 8 refusal (inside bc_components::Salt) nor distinctness across invocations (randomness)."
+    " C17.8: add_assertion_envelope_salted = add_optional_assertion_envelope_salted(self, Some(a), salted).")
 TRUSTED = ['Salt::new_for_size_using / new_with_len_using / new_in_range_using implement the documented length rules',
            'SecureRandomNumberGenerator is the OS CSPRNG']
-FLOORS = {'C17.1': 1, 'C17.2': 1, 'C17.3': 3, 'C17.4': 6, 'C17.5': 2, 'C17.6': 4, 'C17.7': 1}
+FLOORS = {'C17.1': 1, 'C17.2': 1, 'C17.3': 3, 'C17.4': 6, 'C17.5': 2, 'C17.6': 4, 'C17.7': 1, 'C17.8': 1}
 P1, P2, P3 = ('param', 1), ('param', 2), ('param', 3)
 
 
@@ -245,3 +246,17 @@ def check(ctx):
         else:
             ctx.fail('C17.7', ctx.site(b), 'add_assertions_salted is not the unconditional fold of the single salted add over every listed assertion (an element is skipped, added '
                      'to the wrong envelope, or with another flag): %s' % fmt(strip_sites(tb.return_term()))[:300], key='C17.7|batch')
+    # C17.8: the salted / unsalted switch reaches the core adder: add_assertion_envelope_salted(a, salted) =
+    # add_optional_assertion_envelope_salted(self, Some(a), salted) (the flag is the salt switch of C17.5, never the add condition:
+    # "an unsalted add stays deterministic" still adds)
+    b = F.method1('Envelope', 'add_assertion_envelope_salted')
+    if b is None:
+        ctx.lost('C17.8', 'Envelope::add_assertion_envelope_salted')
+    else:
+        rt = strip_sites(detry(TermBuilder(F, b).return_term()))
+        a = m_call(rt, name='add_optional_assertion_envelope_salted', self_suffix='Envelope')
+        some = strip_sites(a[1]) if a is not None else None
+        if a is not None and strip_sites(a[0]) == P1 and some[0] == 'agg' and some[2] == 'Some' and strip_sites(some[3][0]) == P2 and strip_sites(a[2]) == P3:
+            ctx.ok('C17.8', ctx.site(b), 'add_assertion_envelope_salted = add_optional_assertion_envelope_salted(self, Some(assertion), salted)')
+        else:
+            ctx.fail('C17.8', ctx.site(b), 'add_assertion_envelope_salted is %s, not the core salted adder over (self, Some(assertion), salted)' % fmt(rt)[:200], key='C17.8|delegation')
